@@ -610,12 +610,12 @@ func (e *Engine) ResetCoverage() {
 func (e *Engine) globalModel(p *Path, g *ssa.Global) (value, bool) {
 	name := g.Pkg.Pkg.Path() + "." + g.Name()
 	if f, ok := globalModels[name]; ok {
-		return f(e), true
+		return f(e, g), true
 	}
 	return nil, false
 }
 
-var globalModels = map[string]func(e *Engine) value{}
+var globalModels = map[string]func(e *Engine, g *ssa.Global) value{}
 
 
 // funcInfo caches per-function data shared by all paths: value numbering and the model (if any).
